@@ -488,3 +488,76 @@ package headers
 //@     invariant (-1 <= rangeindex && rangeindex < len(result)) || (len(result) == 0 && rangeindex == -1)
 //@     invariant forall(i, 0, len(accumulatedHeightHashes), entryOK(repo, accumulatedHeightHashes[i]))
 //@     invariant forall(k, 0, rangeindex+1, hashOK(repo, result[k]))
+
+// ---------------------------------------------------------------------------------------------------
+// Re-parenting and pruning of branches (C09, C10): the height map of a branch always describes its slice.
+// mapOK: every slot's hash is recorded at the slot's height. distinctHashes: no hash twice in one branch.
+
+//@ pure func mapOK(b Branch) bool = b.heightsMap != nil && forall(o, 0, len(b.headers), b.headers[o] != nil && has(b.heightsMap, b.headers[o].Hash) && b.heightsMap[b.headers[o].Hash] == b.parentHeight + b.offset + (o))
+//@ pure func distinctHashes(b Branch) bool = forall(i, 0, len(b.headers), b.headers[i] != nil) && forall(i, 0, len(b.headers), forall(j, 0, len(b.headers), i != j ==> b.headers[i].Hash != b.headers[j].Hash))
+
+//@ pure func hashesMatch(b Branch) bool = forall(o, 0, len(b.headers), b.headers[o] != nil && b.headers[o].Header != nil && b.headers[o].Hash == hashOf(b.headers[o].Header))
+
+//@ func (*Branch).add
+//@   requires b != nil && header != nil && b.heightsMap != nil
+//@   ensures [C09.map,C10.map] len(b.headers) == old(len(b.headers)) + 1 && b.headers[len(b.headers)-1] == header && forall(o, 0, old(len(b.headers)), b.headers[o] == old(b.headers[o]))
+//@   ensures [C09.map,C10.map] mapupd(b.heightsMap, header.Hash, height)
+//@   ensures [C09.map,C10.map] arr(b.headers) == old(arr(b.headers)) || fresh(b.headers)
+//@   modifies b.headers, elems(b.headers), mapof(b.heightsMap)
+
+//@ func (*Branch).Prune
+//@   requires b != nil && mapOK(*b) && distinctHashes(*b)
+//@   ensures [C10.prune-noop] count < 0 || count >= old(len(b.headers)) ==> nochange()
+//@   ensures [C10.prune-content,C09.map] 0 <= count && count < old(len(b.headers)) ==> len(b.headers) == old(len(b.headers)) - count && b.offset == old(b.offset) + count && forall(o, 0, len(b.headers), b.headers[o] == old(b.headers[o + count]))
+//@   ensures [C10.prune-map,C09.map] 0 <= count && count < old(len(b.headers)) ==> mapOK(*b) && forall(o, 0, count, !has(b.heightsMap, old(b.headers[o]).Hash))
+//@   modifies b.headers, b.offset, mapof(b.heightsMap)
+//@   loop 1
+//@     modifies mapof(b.heightsMap)
+//@     invariant (-1 <= rangeindex && rangeindex < count) || (count == 0 && rangeindex == -1)
+//@     invariant b.headers == atentry(b.headers) && b.heightsMap == atentry(b.heightsMap) && b.offset == atentry(b.offset)
+//@     invariant forall(o, 0, rangeindex+1, !has(b.heightsMap, b.headers[o].Hash))
+//@     invariant forall(o, rangeindex+1, len(b.headers), has(b.heightsMap, b.headers[o].Hash) && b.heightsMap[b.headers[o].Hash] == b.parentHeight + b.offset + (o))
+
+// Reload re-reads pruned headers from storage: environment (trusted). What the callers rely on:
+//@ trusted func (*Branch).Reload
+//@   ensures result == nil ==> b.offset == 1 && len(b.headers) >= 1 && b.headers[0].Header == b.firstHeader && distinctHashes(*b) && hashesMatch(*b) && b.parent == old(b.parent) && b.parentHeight == old(b.parentHeight) && b.firstHeader == old(b.firstHeader) && b.heightsMap == old(b.heightsMap)
+//@   ensures old(b.offset) == 1 ==> result == nil
+//@   modifies b.headers, elems(b.headers), b.offset, mapof(b.heightsMap)
+
+//@ func (*Branch).Truncate
+//@   requires b != nil && parent != nil && distinctHashes(*b) && hashesMatch(*b) && b.offset >= 1
+//@   ensures [C10.truncate-link,C09.map] result1 == nil ==> result0 != nil && fresh(result0) && result0.parent == parent && result0.parentHeight == parentHeight && result0.offset == 1 && len(result0.headers) >= 1
+//@   ensures [C10.truncate-map,C09.map] result1 == nil ==> mapOK(*result0)
+//@   ensures [C10.truncate-content,C09.map] result1 == nil ==> forall(o, 1, len(result0.headers), result0.headers[o] == b.headers[parentHeight + 1 + o - (b.parentHeight + b.offset)])
+//@   modifies b.headers, elems(b.headers), b.offset, mapof(b.heightsMap)
+//@   loop 1
+//@     modifies result.headers, elems(result.headers), mapof(result.heightsMap)
+//@     invariant (-1 <= rangeindex && rangeindex < len(b.headers) - startOffset) || (len(b.headers) - startOffset == 0 && rangeindex == -1)
+//@     invariant height == parentHeight + 2 + rangeindex + 1 && result.parent == parent && result.parentHeight == parentHeight && result.offset == 1 && result.heightsMap == atentry(result.heightsMap) && result.heightsMap != nil
+//@     invariant len(result.headers) == 1 + rangeindex + 1 && (arr(result.headers) == atentry(arr(result.headers)) || loopfresh(result.headers)) && arr(result.headers) != arr(b.headers)
+//@     invariant b.headers == atentry(b.headers) && forall(o, 0, len(b.headers), b.headers[o] == atentry(b.headers[o])) && distinctHashes(*b) && startOffset >= 1 && startOffset <= len(b.headers) && result.headers[0].Hash == b.headers[startOffset-1].Hash
+//@     invariant result.headers[0] != nil && result.headers[0] == atentry(result.headers[0]) && forall(o, 1, len(result.headers), result.headers[o] == b.headers[startOffset + o - 1])
+//@     invariant forall(o, 0, len(result.headers), result.headers[o] != nil && has(result.heightsMap, result.headers[o].Hash) && result.heightsMap[result.headers[o].Hash] == parentHeight + 1 + (o))
+//@     invariant forall(o, 1, len(result.headers), result.headers[0].Hash != result.headers[o].Hash)
+
+// Connect: the claims hold when the height found for the parent hash equals the branch's recorded parent height
+// (Link refuses other cases when loading; consolidate does not check it).
+//@ func (*Branch).Connect
+//@   requires b != nil && b.firstHeader != nil && forall(i, 0, len(branches), branches[i] != nil)
+//@   ensures [C10.connect-link,C09.map] result1 == nil ==> result0 != nil && fresh(result0) && result0.offset == 1 && len(result0.headers) >= 1 && exists(i, 0, len(branches), result0.parent == branches[i])
+//@   ensures [C10.connect-map,C09.map] result1 == nil && result0.parentHeight == b.parentHeight ==> mapOK(*result0)
+//@   ensures [C10.connect-content,C09.map] result1 == nil && result0.parentHeight == b.parentHeight ==> len(result0.headers) == len(b.headers) && forall(o, 1, len(result0.headers), result0.headers[o] == b.headers[o])
+//@   modifies b.headers, elems(b.headers), b.offset, mapof(b.heightsMap)
+//@   loop 1
+//@     invariant (-1 <= rangeindex && rangeindex < len(branches)) || (len(branches) == 0 && rangeindex == -1)
+//@     invariant parent == nil
+//@   loop 2
+//@     modifies result.headers, elems(result.headers), mapof(result.heightsMap)
+//@     invariant (-1 <= rangeindex && rangeindex < len(b.headers) - startOffset) || (len(b.headers) - startOffset == 0 && rangeindex == -1)
+//@     invariant height == parentHeight + 2 + rangeindex + 1 && result.parentHeight == parentHeight && result.offset == 1 && result.heightsMap == atentry(result.heightsMap) && result.heightsMap != nil && result.parent == atentry(result.parent)
+//@     invariant len(result.headers) == 1 + rangeindex + 1 && (arr(result.headers) == atentry(arr(result.headers)) || loopfresh(result.headers)) && arr(result.headers) != arr(b.headers)
+//@     invariant b.headers == atentry(b.headers) && b.offset == 1 && b.parentHeight == atentry(b.parentHeight) && forall(o, 0, len(b.headers), b.headers[o] == atentry(b.headers[o])) && distinctHashes(*b) && len(b.headers) >= 1
+//@     invariant parentHeight == b.parentHeight ==> startOffset == 1 && result.headers[0].Hash == b.headers[0].Hash
+//@     invariant result.headers[0] != nil && result.headers[0] == atentry(result.headers[0]) && forall(o, 1, len(result.headers), result.headers[o] == b.headers[startOffset + o - 1])
+//@     invariant parentHeight == b.parentHeight ==> forall(o, 0, len(result.headers), result.headers[o] != nil && has(result.heightsMap, result.headers[o].Hash) && result.heightsMap[result.headers[o].Hash] == parentHeight + 1 + (o))
+//@     invariant parentHeight == b.parentHeight ==> forall(o, 1, len(result.headers), result.headers[0].Hash != result.headers[o].Hash)
